@@ -158,4 +158,97 @@ inductive PSObs (T : Type) where
   | itemsErr (l : List T) (stopped : Bool)
   deriving DecidableEq
 
+
+/-- What `persistent.OrderedSet` needs from its `items` field (the code-shaped model instantiates it
+    with `*orderedmap.OrderedMap[T, struct{}]`, the spec with a plain list). -/
+structure PSItems (T : Type) where
+  I : Type
+  nil : I                       -- `s.items == nil`
+  contains : I → T → Bool       -- `s.items != nil && s.items.Contains(x)`
+  add : I → T → I               -- `if s.items == nil { s.items = &OrderedMap{} }; s.items.Set(x, struct{}{})`
+  list : I → List T             -- the keys met by `for pair := items.Oldest(); pair != nil; pair = pair.Next()`
+  nonEmpty : I → Bool           -- `s.items != nil && s.items.Oldest() != nil`
+
+namespace PSItems
+variable {T : Type} (I : PSItems T)
+
+/-- one `OrderedSet` object on the heap: `Parent` pointer (an address, `none` = nil) and `items` -/
+structure Obj where
+  parent : Option Nat
+  items : I.I
+
+/-- the heap: address = index -/
+abbrev Heap := List I.Obj
+
+/-- the chain `s, s.Parent, s.Parent.Parent, …` of objects (`fuel` bounds the walk; parents are
+    always allocated before their children, so `heap.length` steps suffice) -/
+def chain (h : I.Heap) : Nat → Option Nat → List I.Obj
+  | 0, _ => []
+  | _, none => []
+  | fuel + 1, some a =>
+    match h[a]? with
+    | none => []
+    | some o => o :: chain h fuel o.parent
+
+def chainOf (h : I.Heap) (s : Option Nat) : List I.Obj := chain I h (h.length + 1) s
+
+/-- `Contains` -/
+def setContains (h : I.Heap) (s : Option Nat) (x : T) : Bool := (chainOf I h s).any (fun o => I.contains o.items x)
+
+/-- the callback invocations of `ForEach` with a callback that never fails -/
+def forEach (h : I.Heap) (s : Option Nat) : List T := (chainOf I h s).flatMap (fun o => I.list o.items)
+
+/-- `IsEmpty` -/
+def isEmpty (h : I.Heap) (s : Option Nat) : Bool := !(chainOf I h s).any (fun o => I.nonEmpty o.items)
+
+/-- `NewOrderedSet(parent)`: the new heap and the address of the new object -/
+def newSet (h : I.Heap) (parent : Option Nat) : I.Heap × Nat := (h ++ [⟨parent, I.nil⟩], h.length)
+
+/-- `Add`; `none` = nil-pointer dereference (nil receiver and the item is not yet contained) -/
+def setAdd (h : I.Heap) (s : Option Nat) (x : T) : Option I.Heap :=
+  if setContains I h s x then some h else
+  match s with
+  | none => none
+  | some a =>
+    match h[a]? with
+    | none => none
+    | some o => some (h.set a ⟨o.parent, I.add o.items x⟩)
+
+/-- `AddIntersection(a, b)`: `a.ForEach(item => if b.Contains(item) { s.Add(item) })` -/
+def addIntersection (h : I.Heap) (s a b : Option Nat) : Option I.Heap :=
+  (forEach I h a).foldl (fun acc x => acc.bind (fun h' => if setContains I h' b x then setAdd I h' s x else some h')) (some h)
+
+structure State where
+  heap : I.Heap
+  regs : Regs (Option Nat)
+
+def step (st : I.State) : PSOp T → I.State × PSObs T
+  | .mk t parent =>
+    let x := newSet I st.heap (parent.bind st.regs)
+    (⟨x.1, st.regs.put t (some x.2)⟩, .done)
+  | .clone t r =>
+    let x := newSet I st.heap (st.regs r)
+    (⟨x.1, st.regs.put t (some x.2)⟩, .done)
+  | .add r x =>
+    match setAdd I st.heap (st.regs r) x with
+    | some h => (⟨h, st.regs⟩, .done)
+    | none => (st, .goPanic)
+  | .has r x => (st, .bool (setContains I st.heap (st.regs r) x))
+  | .each r => (st, .items (forEach I st.heap (st.regs r)))
+  | .eachErr r stop => let v := visitUntil stop (forEach I st.heap (st.regs r)); (st, .itemsErr v.2 v.1)
+  | .addInter r a b =>
+    match addIntersection I st.heap (st.regs r) (a.bind st.regs) (b.bind st.regs) with
+    | some h => (⟨h, st.regs⟩, .done)
+    | none => (st, .goPanic)
+  | .isEmpty r => (st, .bool (isEmpty I st.heap (st.regs r)))
+
+def run (st : I.State) : List (PSOp T) → List (PSObs T)
+  | [] => []
+  | op :: ops => (I.step st op).2 :: run (I.step st op).1 ops
+
+/-- all registers nil, empty heap -/
+def init : I.State := ⟨[], fun _ => none⟩
+
+end PSItems
+
 end Verif.DS
